@@ -25,6 +25,12 @@ pub struct GenCfg {
     pub latency: bool,
     pub frame_max_choices: Vec<(u32, u32)>,
     pub heartbeat: u16,
+    /// every channel registers a return listener first and reads it after a final round trip
+    pub returns_protocol: bool,
+    /// every consumer is cancelled and drained before the thread ends
+    pub drain_all: bool,
+    /// extra weight for publish ops
+    pub publish_heavy: bool,
 }
 
 impl Default for GenCfg {
@@ -47,6 +53,9 @@ impl Default for GenCfg {
             latency: true,
             frame_max_choices: vec![(0, 4096), (4096, 131072), (0, 8192), (4097, 0), (0, 131072), (8192, 4096)],
             heartbeat: 0,
+            returns_protocol: false,
+            drain_all: false,
+            publish_heavy: false,
         }
     }
 }
@@ -131,6 +140,16 @@ pub fn gen_thread(cs: &mut ChoiceStream, g: &GenCfg, thread_no: usize, n_chans: 
         kinds.extend(["ack_all", "nack_all"]);
     }
     kinds.push("yield");
+    if g.publish_heavy {
+        kinds.extend(["publish"; 12]);
+    }
+    if g.returns_protocol {
+        for slot in 0..n_chans {
+            t.returns_on[slot] = true;
+            t.ops.push((slot, Op::ListenReturns));
+        }
+        kinds.retain(|k| *k != "listen_returns");
+    }
     for i in 0..n_ops {
         let idx = t.ops.len();
         let mark = format!("t{}o{}", thread_no, idx);
@@ -242,6 +261,26 @@ pub fn gen_thread(cs: &mut ChoiceStream, g: &GenCfg, thread_no: usize, n_chans: 
         };
         t.ops.push((slot, op));
     }
+    if g.drain_all {
+        for c in 0..t.consumers.len() {
+            let (slot, st) = t.consumers[c];
+            if st == 0 {
+                t.ops.push((slot, Op::Cancel { slot: c }));
+            }
+            if st <= 1 {
+                let n = cs.choose("n_acks", 3);
+                let acks: Vec<AckKind> = if g.acks { (0..n).map(|_| gen_ack(cs)).collect() } else { Vec::new() };
+                t.ops.push((slot, Op::Drain { slot: c, max: None, acks, via_consumer: b(cs, "via_consumer") }));
+            }
+            t.consumers[c].1 = 2;
+        }
+    }
+    if g.returns_protocol {
+        for slot in 0..n_chans {
+            t.ops.push((slot, Op::Qos { size: 0, count: 1, global: false }));
+            t.ops.push((slot, Op::ReadReturns));
+        }
+    }
     t
 }
 
@@ -314,7 +353,7 @@ pub fn gen_broker(cs: &mut ChoiceStream, g: &GenCfg, server_fm: u32, p: usize) -
         bc.s2c_lat_max_ns = *pick(cs, "s2c_lat", &[1_000u64, 50_000, 1_000_000]);
     }
     if g.read_faults {
-        bc.seg_mode = pick(cs, "seg_mode", &[SegMode::Whole, SegMode::Random, SegMode::Small, SegMode::Byte, SegMode::Mtu]).clone();
+        bc.seg_mode = pick(cs, "seg_mode", &[SegMode::Whole, SegMode::Random, SegMode::Small, SegMode::Mtu, SegMode::Random, SegMode::Whole, SegMode::Small, SegMode::Byte]).clone();
         bc.seg_gap_max_ns = *pick(cs, "seg_gap", &[0u64, 10_000, 300_000]);
         bc.spurious_permille = *pick(cs, "spurious", &[0u32, 0, 100]);
     }
@@ -323,6 +362,12 @@ pub fn gen_broker(cs: &mut ChoiceStream, g: &GenCfg, server_fm: u32, p: usize) -
         bc.deliveries_max = 6;
     }
     bc.body_max = (p * g.body_factor as usize + 1).min(20_000);
+    // keep dribbling runs affordable: content frames can still be many (1-byte body frames)
+    match bc.seg_mode {
+        SegMode::Byte => bc.body_max = bc.body_max.min(200),
+        SegMode::Small => bc.body_max = bc.body_max.min(4_000),
+        _ => {}
+    }
     bc.mux_burst_max = *pick(cs, "mux_burst", &[1u32, 3, 8]);
     bc.mux_gap_max_ns = *pick(cs, "mux_gap", &[0u64, 20_000]);
     bc.return_permille = if g.listeners { 500 } else { 0 };
